@@ -931,9 +931,11 @@ def evaluate__tokenize(self: XPathFunction, context: ta.ContextType = None) -> t
 
     result = []
     if input_string:
-        for value in re_pattern.split(input_string):
-            if value is not None and re_pattern.search(value) is None:
-                result.append(value)
+        start = 0
+        for match in re_pattern.finditer(input_string):
+            result.append(input_string[start:match.start()])
+            start = match.end()
+        result.append(input_string[start:])
 
         if len(result) == 1:
             return result[0]
